@@ -18,6 +18,8 @@
 (*   separators          one blank, two blanks, tab, newline, newline with *)
 (*                       space / tab / mixed indentation, three blank      *)
 (*                       lines, trailing blanks before the newline, CR-LF  *)
+(*                       (also with three blank lines and with trailing    *)
+(*                       blanks before it)                                 *)
 (* A rewriter is given by what it does to each separator and to each       *)
 (* segment.  Shape = "token-aware": separators between tokens and the      *)
 (* letter case of keywords only.  Shape = "line-based" (the pinned code):  *)
@@ -36,15 +38,16 @@ EXTENDS Integers, Sequences, FiniteSets, TLC, Json
 CONSTANTS MaxSegs, Seps, Shape, Emit     \* Seps: the separators used, a subset of AllSeps
 
 Code == {"kwU", "kwL", "kwM", "ident", "num", "comma", "star", "eq", "lparen", "rparen"}
-Protected == {"strKw", "strMulti", "strEsc", "strBs", "qidKw", "btKw", "cmtLine", "cmtPlain", "cmtBlockOne", "cmtBlock", "dollarMulti"}
-MultiLine == {"strMulti", "cmtBlock", "dollarMulti"}
+Protected == {"strKw", "strMulti", "strMultiCrlf", "strEsc", "strBs", "qidKw", "btKw", "cmtLine", "cmtPlain", "cmtBlockOne", "cmtBlock", "dollarMulti"}
+MultiLine == {"strMulti", "strMultiCrlf", "cmtBlock", "dollarMulti"}      \* strMultiCrlf: the same with CR-LF line ends inside
 Segs == Code \cup Protected
-AllSeps == {"sp", "sp2", "tab", "nl", "nlIndent", "nlTab", "nlMixed", "blank3", "trail", "crlf"}
+AllSeps == {"sp", "sp2", "tab", "nl", "nlIndent", "nlTab", "nlMixed", "blank3", "trail", "crlf",
+            "blank3crlf", "trailcrlf"}      \* three blank lines / trailing blanks in a text with CR-LF line ends
 ASSUME Seps \subseteq AllSeps
 Rules == {"L001", "L002", "L003", "L007", "L010", "format"}
 
 \* a line comment runs to the end of its line: the separator after it must start with a line end
-EndsLine(sep) == sep \in {"nl", "nlIndent", "nlTab", "nlMixed", "blank3", "crlf"}
+EndsLine(sep) == sep \in {"nl", "nlIndent", "nlTab", "nlMixed", "blank3", "crlf", "blank3crlf"}
 Texts == UNION {{t \in [segs : [1..n -> Segs], seps : [1..(n - 1) -> Seps]] :
                     \A i \in 1..(n - 1) : t.segs[i] \in {"cmtLine", "cmtPlain"} => EndsLine(t.seps[i])} : n \in 1..MaxSegs}
 
@@ -53,11 +56,13 @@ vars == <<text, rule, out1, out2, pc>>
 
 \* ---- what a rule's fix does to a separator and to a segment ---------------------------------------------------
 FixSep(r, s) == CASE r = "L001" /\ s = "trail" -> "nl"
+                  [] r = "L001" /\ s = "trailcrlf" -> "crlf"
+                  [] r = "L003" /\ s = "blank3crlf" -> "crlf"
                   [] r = "L002" /\ s \in {"nlTab", "nlMixed"} -> "nlIndent"
                   [] r = "L003" /\ s = "blank3" -> "nl"          \* at most one blank line: modelled as none
                   [] r = "L010" /\ s = "sp2" -> "sp"
                   [] r = "format" /\ s \in {"sp2", "tab"} -> "sp"
-                  [] r = "format" /\ s \in {"trail", "blank3", "nlTab", "nlMixed", "nlIndent", "crlf"} -> "nl"
+                  [] r = "format" /\ s \in {"trail", "blank3", "nlTab", "nlMixed", "nlIndent", "crlf", "blank3crlf", "trailcrlf"} -> "nl"
                   [] OTHER -> s
 \* "damaged" marks a protected segment whose inner lines were rewritten
 FixSeg(r, g) == CASE g \in {"kwL", "kwM"} /\ r \in {"L007", "format"} -> "kwU"
@@ -77,7 +82,7 @@ Fold(g) == IF g \in {"kwU", "kwL", "kwM"} THEN "kw" ELSE g
 PreservesTokens == pc # "fix" => /\ DOMAIN out1.segs = DOMAIN text.segs
                                  /\ \A i \in DOMAIN text.segs : Fold(out1.segs[i]) = Fold(text.segs[i])
 Idempotent == pc = "done" => out2 = out1
-Defect(r, s) == CASE r = "L001" -> s = "trail" [] r = "L002" -> s \in {"nlTab", "nlMixed"} [] r = "L003" -> s = "blank3"
+Defect(r, s) == CASE r = "L001" -> s \in {"trail", "trailcrlf"} [] r = "L002" -> s \in {"nlTab", "nlMixed"} [] r = "L003" -> s \in {"blank3", "blank3crlf"}
                   [] r = "L010" -> s = "sp2" [] OTHER -> FALSE
 CleanAfterFix == pc # "fix" => /\ \A i \in DOMAIN out1.seps : ~Defect(rule, out1.seps[i])
                                /\ (rule = "L007" => \A i \in DOMAIN out1.segs : out1.segs[i] \notin {"kwL", "kwM"})
